@@ -108,6 +108,18 @@ PROPS = {
         "level_note": "trusted: Cache.tla's abstraction of from_ym (bound by the hit/miss/fill/refuse hook events), the guarded hooks, the OS scheduler for real interleavings; answers are compared with the uncached constructor / a fresh process of the same build, so a defect that is history-independent is out of scope here (C02/C03 cover it)",
         "technique": "TLA+ memo model: exhaustive interleavings with TLC, TLC-generated histories replayed into the code, hook-event trace validation",
     },
+    "C12": {
+        "title": "clock arithmetic to the second and Julian-date<->clock conversion are exact",
+        "mc": {"quick": [{"module": "MC_Clock", "cfg": "MC_Clock.cfg", "workers": 4}]},
+        "rule": "seeded SolarTime::next(n) from special days (month/year ends, leap days, both sides of the 1582 gap, range ends) and random days with n from +-1 s to +-10^9 s; pairs for subtract/is_before/is_after/==; round trips through the Julian date; "
+                "Julian dates on a millisecond grid (x.000 .250 .499 .501 .750 .999) around hh:59:59 / 23:59:59 on those days (quick ~12k events, thorough x25). "
+                "Non-trivial: additions that change the day, pairs on different days, Julian dates that round up",
+        "exhaustive": {"quick": False, "thorough": False},
+        "assumptions": ["a Julian date is passed as f64; within 1 ms of a half-second tie either neighbouring second is accepted (float resolution at 2.4e6 days is 40 microseconds)"],
+        "level_text": "TLC checks the clock model (MC_Clock: Add is a group action with floor carries through minute/hour/day in both directions, Diff inverts Add, order = sign of Diff, rounding a Julian date stays within half a second and carries into the next day) and validates every next(n), subtract, comparison, round trip and Julian-date conversion of the real code against the same operators on (day number, second) pairs, with the calendar fields checked through Civil.tla",
+        "level_note": "trusted: Clock.tla, Civil.tla, TLC, harness logging; sampled, not exhaustive (the space of instants x offsets is ~10^21)",
+        "technique": "TLA+ clock model checked with TLC + trace validation of seeded and boundary-grid calls",
+    },
     "C15": {
         "title": "term-anchored day series: Nines, Dog days, Plum rains, pentads, ruling stems",
         "mc": {"quick": [{"module": "MC_Series", "cfg": "MC_Series.cfg", "workers": 4}]},
